@@ -455,6 +455,16 @@ func checkCompoundLHS(
 	expr ast.Expr,
 	tok token.Token,
 ) *ImmutableViolation {
+	// Compound assignment to the receiver itself: *r += v
+	if star, ok := ast.Unparen(expr).(*ast.StarExpr); ok {
+		violation := checkReceiverReassignment(ctx, stmt, star)
+		if violation != nil {
+			violation.Code = codes.ImmutableFieldCompoundAssign
+			violation.Reason = fmt.Sprintf("cannot use %s on immutable receiver (outside constructor)", tok.String())
+		}
+		return violation
+	}
+
 	selector, ok := ast.Unparen(expr).(*ast.SelectorExpr)
 	if !ok {
 		return nil
